@@ -103,7 +103,7 @@ var simAssumptions = []string{
 func simProp(rule string, probes ...string) *propCfg {
 	return &propCfg{engine: "vsim", instrumented: true, level: "exploration", quickS: 25, thoroughS: 420, rule: rule,
 		components: simComponents, assumptions: simAssumptions, wantProbes: probes,
-		variantsQ: []string{"default"}, variantsT: []string{"default", "default+small", "poll_opt", "gc_opt", "poll_opt+gc_opt"}}
+		variantsQ: []string{"default", "poll_opt"}, variantsT: []string{"default", "default+small", "poll_opt", "gc_opt", "poll_opt+gc_opt"}}
 }
 
 func init() {
@@ -132,7 +132,7 @@ func init() {
 	// build flavour +small (3 requests per loop round, urgent-queue threshold 8, 4 iovecs per
 	// writev, 2-event lists): the thresholds of the poller and of the write path are reachable
 	for _, id := range []string{"C02", "C03"} {
-		props[id].variantsQ = []string{"default", "default+small"}
+		props[id].variantsQ = []string{"default", "default+small", "poll_opt"}
 		props[id].variantsT = []string{"default", "default+small", "poll_opt", "poll_opt+small", "gc_opt", "poll_opt+gc_opt"}
 	}
 	props["C14"].extra = []*propCfg{{engine: "vreg", instrumented: true, variantsQ: []string{"default", "gc_opt"}, variantsT: []string{"default", "gc_opt"}}}
